@@ -10,6 +10,8 @@ RULE = ("programs: variant kinds x generics x 0..6 properties per variant split 
 
 KEYS = ["color", "Color", "COLOR", "level", "size", "type", "fn", "match", "loop", "self", "Self", "mod", "x", "X", "a1", "_u", "long_key_name", "k", "id", "Id", "ref", "dyn", "async", "é", "naïve"]
 STRS = ["red", "", "with \"q\"", "back\\slash", "{braces}", "日本", "a b", "1", "true"]
+INTLITS = [("1_250_000", 1250000), ("0xFF", 255), ("0b1010", 10), ("0o755", 493), ("42i64", 42), ("-1_000", -1000), ("0x7FFF_FFFF_FFFF_FFFF", 2**63 - 1),
+           ("-0", 0), ("00012", 12)]
 INTS = [0, 1, -1, 42, -42, 255, 256, -129, 65536, 2**31, -2**31, 2**63 - 1, -2**63, 1234567890123]
 
 
@@ -31,7 +33,10 @@ def build(r, name, generics=None):
                 continue
             used.add((key, ty))
             val = {"str": r.choice(STRS), "int": r.choice(INTS), "bool": r.random() < 0.5}[ty]
-            props.append((key, ty, val))
+            if ty == "int" and r.random() < 0.3:
+                props.append((key, "intlit", r.choice(INTLITS)))
+            else:
+                props.append((key, ty, val))
         ngroups = r.choice([1, 1, 2, 3])
         groups = [[] for _ in range(ngroups)]
         for p in props:
@@ -43,6 +48,12 @@ def build(r, name, generics=None):
             v.serialize = ["s%d" % i]
         vs.append(v)
     spec = EnumSpec(name=name, variants=vs, derives=["EnumProperty"], generics=generics, std_derives=["Debug", "Clone"])
+    # unrelated enum-level attributes must not influence the keys
+    if r.random() < 0.5:
+        spec.serialize_all = r.choice(model.STYLE_STRINGS)
+    if r.random() < 0.3:
+        spec.prefix = "pfx_"
+    spec.attr_order_seed = r.randint(0, 6)
     gen.ensure_generics_used(r, spec)
     return spec
 
@@ -75,8 +86,9 @@ def glue(spec, r):
             if not v.disabled:
                 for g in v.props:
                     for k, t, val in g:
-                        if t == tyname and k not in m_:
-                            m_[k] = val
+                        tt, vv = ("int", val[1]) if t == "intlit" else (t, val)
+                        if tt == tyname and k not in m_:
+                            m_[k] = vv
             rows.append("&[%s]" % ", ".join("Some(%s)" % render(m_[k]) if k in m_ else "None" for k in keys))
         return "&[%s]" % ", ".join(rows)
     body = spec.render() + "\n"
